@@ -1,8 +1,188 @@
-(** * C07 — field collection and introspection (property theorems). *)
-From Coq Require Import List Bool String.
+(** * C07 — Field collection: once per name, MRO-fresh, definition order; introspection.
+
+    Property theorems only; each is closed by [exact] of a lemma from
+    [C07/Proofs.v] and followed by [Print Assumptions].  Class tables, MRO lists,
+    bodies and transformers are arbitrary (unbounded); MRO lists are arbitrary
+    lists of class ids, strictly more general than C3 linearisations. *)
+From Coq Require Import List Bool String Ascii ZArith Sorted Permutation.
 Import ListNotations.
 From Attrs Require Import Core.Attr C07.Model C07.Proofs.
 
-Theorem names_survive_alias_resolution : forall l, names (map resolve_alias l) = names l.
-Proof. exact names_resolve_alias. Qed.
-Print Assumptions names_survive_alias_resolution.
+(** fields(C) lists every field exactly once — for every class statement without a
+    transformer, through every front-end, in both collection modes, whatever the
+    earlier classes look like (own names are the keys of a dict: of the class
+    namespace, of __annotations__, or of these=). *)
+Theorem fields_nodup : forall pre t k d res,
+  d_ft d = None ->
+  (forall th, d_these d = Some th -> NoDup (map fst th)) ->
+  decorate pre t k d = Ok res -> NoDup (names res).
+Proof. exact decorate_fields_nodup_l. Qed.
+Print Assumptions fields_nodup.
+
+(** With a transformer: exactly when the transformer's answer is duplicate-free. *)
+Theorem fields_nodup_under_transformer : forall t mro by_mro kw ft own res,
+  NoDup (names (ft (evolve_kw_only kw (base_attrs_of t mro by_mro (names own))
+                    ++ evolve_kw_only kw own))) ->
+  transform_attrs t mro by_mro kw (Some ft) own = Ok res -> NoDup (names res).
+Proof. exact fields_nodup_ft_l. Qed.
+Print Assumptions fields_nodup_under_transformer.
+
+(** First the inherited ones (all flagged), then the own ones (none flagged) in
+    definition order; no inherited field carries an own name. *)
+Theorem fields_inherited_then_own : forall t mro by_mro kw own res,
+  Forall (fun a => a_inherited a = false) own ->
+  transform_attrs t mro by_mro kw None own = Ok res ->
+  exists inh ow,
+    res = inh ++ ow /\
+    Forall (fun a => a_inherited a = true) inh /\
+    Forall (fun a => a_inherited a = false) ow /\
+    names ow = names own /\
+    (forall n, In n (names inh) -> ~ In n (names own)).
+Proof. exact fields_inherited_then_own_l. Qed.
+Print Assumptions fields_inherited_then_own.
+
+(** What [own] is: un-flagged attributes named like [ca_list], in its order. *)
+Theorem own_fields_follow_ca_list : forall pre these auto body own,
+  own_attrs pre these auto body = Ok own ->
+  Forall (fun a => a_inherited a = false) own /\
+  exists l, ca_list pre these auto (fst (namespace body)) (snd (namespace body)) = Ok l /\
+            names own = map fst l.
+Proof. exact own_attrs_spec. Qed.
+Print Assumptions own_fields_follow_ca_list.
+
+(** Counter mode: for ANY strictly increasing counter assignment along the source
+    order, the sort returns the source order (the absolute value of the global
+    counter is irrelevant); in general the result is a sorted permutation. *)
+Theorem own_definition_order : forall l,
+  StronglySorted (fun x y => (ca_counter (snd x) < ca_counter (snd y))%Z) l ->
+  sort_by_counter l = l.
+Proof. exact own_definition_order_l. Qed.
+Print Assumptions own_definition_order.
+
+Theorem counter_sort_is_sorted_permutation : forall l,
+  Permutation l (sort_by_counter l) /\ Sorted counter_le (sort_by_counter l).
+Proof. intros l. split; [apply sort_perm | apply sort_sorted]. Qed.
+Print Assumptions counter_sort_is_sorted_permutation.
+
+Theorem counter_mode_source_order : forall pre l,
+  NoDup (map fst l) ->
+  StronglySorted (fun x y => (ca_counter (snd x) < ca_counter (snd y))%Z) l ->
+  ca_list pre None false (fst (namespace (body_ib l))) (snd (namespace (body_ib l))) = Ok l.
+Proof. exact counter_mode_source_order_l. Qed.
+Print Assumptions counter_mode_source_order.
+
+(** collect_by_mro / define: for every name, the listed inherited definition is the
+    own definition of the FIRST class of the MRO that defines the name itself. *)
+Theorem mro_nearest_wins : forall t mro taken n,
+  find (named n) (collect_base_attrs t mro taken) =
+  if mem_str n taken then None
+  else option_map (fun a => set_inherited a true) (nearest_def t mro n).
+Proof. exact mro_nearest_wins_l. Qed.
+Print Assumptions mro_nearest_wins.
+
+Theorem mro_nearest_wins_in_fields : forall t mro kw own res,
+  transform_attrs t mro true kw None own = Ok res ->
+  forall n, ~ In n (names own) ->
+    find (named n) res =
+    option_map (fun a => resolve_alias (if kw then set_kw_only (inh a) true else inh a))
+               (nearest_def t mro n).
+Proof. exact mro_nearest_wins_result_l. Qed.
+Print Assumptions mro_nearest_wins_in_fields.
+
+(** Own fields shadow inherited ones of the same name (both collection modes). *)
+Theorem own_shadows_inherited : forall t mro by_mro own a,
+  In a (base_attrs_of t mro by_mro (names own)) -> ~ In (a_name a) (names own).
+Proof. exact own_shadows_inherited_l. Qed.
+Print Assumptions own_shadows_inherited.
+
+(** Legacy collection = MRO-correct collection on linear chains ... *)
+Theorem legacy_linear_agrees : forall t mro, chain_ok t mro ->
+  forall taken, collect_base_attrs_broken t mro taken = collect_base_attrs t mro taken.
+Proof. exact legacy_linear_agrees_l. Qed.
+Print Assumptions legacy_linear_agrees.
+
+(** ... and NOT on diamonds: issue #428 (finding K7), the reason for collect_by_mro. *)
+Theorem legacy_diamond_refuted :
+  exists t mro n,
+    find (named n) (collect_base_attrs_broken t mro []) <>
+    option_map inh (nearest_def t mro n).
+Proof. exact legacy_diamond_refuted_l. Qed.
+Print Assumptions legacy_diamond_refuted.
+
+(** Index access, name access, fields_dict, __match_args__ and the initializer's
+    parameter order are functions of the one tuple, related exactly like this. *)
+Theorem introspection_agree : forall l,
+  NoDup (fields_dict_keys l) /\
+  (forall n, In n (fields_dict_keys l) <-> In n (names l)) /\
+  (NoDup (names l) -> fields_dict_keys l = names l) /\
+  (forall n, fields_dict_get l n =
+             match index_of_name l n with Some j => nth_error l j | None => None end) /\
+  (NoDup (names l) -> forall j a, nth_error l j = Some a -> index_of_name l (a_name a) = Some j) /\
+  combine (match_args l) (init_positional l) =
+    map (fun a => (a_name a, alias_of a)) (filter positional l) /\
+  List.length (match_args l) = List.length (init_positional l) /\
+  Permutation (init_positional l ++ init_kw_only l) (map alias_of (filter a_init l)).
+Proof. exact introspection_agree_l. Qed.
+Print Assumptions introspection_agree.
+
+(** The tuple reflects exactly what the transformer returned (aliases resolved
+    afterwards), for an arbitrary transformer function. *)
+Theorem transformer_reflected : forall t mro by_mro kw ft own,
+  let given := evolve_kw_only kw (base_attrs_of t mro by_mro (names own)) ++ evolve_kw_only kw own in
+  transform_attrs t mro by_mro kw (Some ft) own =
+  if order_ok (ft given) then Ok (map resolve_alias (ft given)) else Err EValue.
+Proof. exact transformer_reflected_l. Qed.
+Print Assumptions transformer_reflected.
+
+(** define(auto_attribs=None) is annotation-driven iff no unannotated field() exists. *)
+Theorem define_inference : forall pre t k d,
+  d_auto d = AutoInfer ->
+  decorate pre t k d =
+  attrs_call pre t k d
+    (match d_these d with Some _ => true | None => annotation_driven pre (k_body k) end).
+Proof. exact define_inference_l. Qed.
+Print Assumptions define_inference.
+
+Theorem annotation_driven_characterised : forall pre body,
+  annotation_driven pre body = true <->
+  forall n, In n (map fst (counting_attrs (fst (namespace body)))) ->
+            In n (annot_names pre (snd (namespace body))).
+Proof. exact annotation_driven_iff. Qed.
+Print Assumptions annotation_driven_characterised.
+
+(** ClassVar: every documented spelling is recognised, bare and quoted. *)
+Theorem classvar_documented : forall p s,
+  In p documented_prefixes -> is_class_var documented_prefixes (p ++ s)%string = true.
+Proof. exact classvar_documented_l. Qed.
+Print Assumptions classvar_documented.
+
+Theorem classvar_documented_quoted : forall p s q1 q2,
+  In p documented_prefixes -> is_quote q1 = true -> is_quote q2 = true ->
+  is_class_var documented_prefixes (String q1 ((p ++ s) ++ String q2 ""))%string = true.
+Proof. exact classvar_documented_quoted_l. Qed.
+Print Assumptions classvar_documented_quoted.
+
+(** Default alias: the name without its leading underscores; explicit aliases stay. *)
+Theorem alias_default_spec : forall a,
+  (a_alias a = None \/ a_alias a = Some ""%string) ->
+  exists k al, a_alias (resolve_alias a) = Some al /\
+               a_name a = (underscores k ++ al)%string /\
+               (forall r, al <> String "_"%char r).
+Proof. exact alias_default_spec_l. Qed.
+Print Assumptions alias_default_spec.
+
+(** Equivalent declarations through different front-ends give the same own fields
+    (hence, by [transform_attrs] being a function of them, the same tuple). *)
+Theorem frontends_equal_these_vs_body : forall pre auto l,
+  NoDup (map fst l) ->
+  StronglySorted (fun x y => (ca_counter (snd x) < ca_counter (snd y))%Z) l ->
+  own_attrs pre None false (body_ib l) = own_attrs pre (Some l) auto [].
+Proof. exact frontends_these_vs_body_l. Qed.
+Print Assumptions frontends_equal_these_vs_body.
+
+Theorem frontends_equal_these_vs_annotations : forall pre auto (l : typed_spec),
+  NoDup (tnames l) ->
+  Forall (fun e => is_class_var pre (snd e) = false /\ a_type (ca_attr (snd (fst e))) = None) l ->
+  own_attrs pre None true (body_ann l) = own_attrs pre (Some (these_of l)) auto [].
+Proof. exact frontends_these_vs_annotations_l. Qed.
+Print Assumptions frontends_equal_these_vs_annotations.
